@@ -1,5 +1,7 @@
 import asyncio
 import collections.abc
+import datetime
+import email.utils
 import itertools
 import json
 import ssl
@@ -102,7 +104,7 @@ async def request(
             # If we are asked to retry later, do so, and obey the requested backoff.
             if isinstance(e, errors.APITooManyRequestsError):
                 if e.headers and e.headers.get("Retry-After"):
-                    retry_after = int(float(e.headers["Retry-After"]))  # the new style
+                    retry_after = _parse_retry_after(e.headers["Retry-After"])  # the new style
                 elif e.details and e.details.get("retryAfterSeconds"):
                     retry_after = int(e.details["retryAfterSeconds"])  # the old style
                 else:
@@ -129,6 +131,26 @@ async def request(
             return response
 
     raise RuntimeError("Broken retryable routine.")  # impossible, but needed for type-checking.
+
+
+def _parse_retry_after(value: str) -> int | None:
+    """
+    Parse the ``Retry-After`` header: either delay-seconds or an HTTP-date (RFC 7231, 7.1.3).
+
+    Unparsable values are ignored (as if there was no header) instead of failing the request.
+    """
+    try:
+        return int(float(value))
+    except ValueError:
+        pass
+    try:
+        when = email.utils.parsedate_to_datetime(value)
+    except (TypeError, ValueError):
+        return None
+    if when.tzinfo is None:
+        when = when.replace(tzinfo=datetime.timezone.utc)
+    now = datetime.datetime.now(datetime.timezone.utc)
+    return max(0, int((when - now).total_seconds()))
 
 
 async def get(
